@@ -87,11 +87,13 @@ impl RoutingTable {
             return false;
         }
 
-        if self
-            .buckets()
-            .values()
-            .any(|bucket| node.already_exists(&bucket.nodes))
-        {
+        // The IP restrictions are about _other_ nodes: an entry with the same id is this very
+        // node, and is left for the bucket to refresh (`last_seen`, possibly the address) below.
+        if self.buckets().values().any(|bucket| {
+            bucket.iter().any(|existing| {
+                existing.id() != node.id() && node.already_exists(std::slice::from_ref(existing))
+            })
+        }) {
             return false;
         };
 
